@@ -21,12 +21,15 @@ def execute(ops):
     from rich.file_proxy import FileProxy
     sink = io.StringIO()
     console = Console(file=sink, force_terminal=True, color_system="truecolor", width=300, _environ={}, legacy_windows=False)
-    proxy = FileProxy(console, io.StringIO())
+    proxies = {1: FileProxy(console, io.StringIO()), 2: FileProxy(console, io.StringIO())}   # stdout / stderr
     pos = 0
     events = []
-    carry = ""          # an escape sequence cut by a chunk boundary belongs to the chunk that completes it
+    carries = {1: "", 2: ""}    # an escape sequence cut by a chunk boundary belongs to the chunk that completes it
     for op in ops:
-        e = dict(k=op["k"], exc="none")
+        pid = op.get("p", 1)
+        proxy = proxies[pid]
+        carry = carries[pid]
+        e = dict(k=op["k"], exc="none", p=pid)
         try:
             if op["k"] == "write":
                 text = carry + op["text"]
@@ -35,6 +38,7 @@ def execute(ops):
                     carry, text = text[cut:], text[:cut]
                 else:
                     carry = ""
+                carries[pid] = carry
                 e["chunk"] = lex(text)
                 proxy.write(op["text"])
             else:
@@ -79,6 +83,17 @@ def random_ops(rng):
     return ops
 
 
+def two_proxy_ops(rng):
+    """stdout and stderr proxies on one console: two independent streams, calls interleaved."""
+    a = [dict(o, p=1) for o in random_ops(rng)]
+    b = [dict(o, p=2) for o in random_ops(rng)]
+    out = []
+    while a or b:
+        src = a if (a and (not b or rng.random() < 0.5)) else b
+        out.append(src.pop(0))
+    return out
+
+
 def fileproxy_part(chk: Check):
     cases = []
     if chk.replay_only:
@@ -106,22 +121,23 @@ def fileproxy_part(chk: Check):
                         ops.append(dict(k="flush"))
                 cases.append(ops)
         chk.notes["tlc_generated_chunkings"] = len(cases)
-        for _ in range(chk.pick(2500, 40000)):
-            cases.append(random_ops(chk.rng))
+        for i in range(chk.pick(2500, 40000)):
+            cases.append(two_proxy_ops(chk.rng) if i % 3 == 0 else random_ops(chk.rng))
     # drop flushes of escape-only pending text from TLC-generated cases (domain restriction, see random_ops)
     cleaned = []
     for ops in cases:
-        buf, out = "", []
+        bufs, out = {1: "", 2: ""}, []
         for op in ops:
+            pid = op.get("p", 1)
             if op["k"] == "write":
                 out.append(op)
-                joined = buf + op["text"]
-                buf = joined.rsplit("\n", 1)[-1]
+                joined = bufs[pid] + op["text"]
+                bufs[pid] = joined.rsplit("\n", 1)[-1]
             else:
-                vis = [t for t in lex(buf) if t[0] == "c"]
-                if vis or buf == "":
+                vis = [t for t in lex(bufs[pid]) if t[0] == "c"]
+                if vis or bufs[pid] == "":
                     out.append(op)
-                    buf = ""
+                    bufs[pid] = ""
         cleaned.append(out)
     cases = cleaned
     recs = [execute(ops) for ops in cases]
@@ -134,7 +150,7 @@ def fileproxy_part(chk: Check):
             step = int(v.split(" ")[1]) if v.startswith("step ") else 0
             clause = v.split(": ")[-1]
             op = ops[step - 1] if 1 <= step <= len(ops) else {"k": "?"}
-            pend = "".join(o.get("text", "") for o in ops[:step]).rsplit("\n", 1)[-1]
+            pend = "".join(o.get("text", "") for o in ops[:step] if o.get("p", 1) == op.get("p", 1)).rsplit("\n", 1)[-1]
             shape = "markup" if "[" in pend else ("reset-m" if "\x1b[m" in "".join(o.get("text", "") for o in ops[:step]) else "plain")
             chk.reject("fileproxy %s op=%s pending=%s" % (clause, op["k"], shape), v, dict(part="fileproxy", ops=ops[:step] if step else ops))
     if cases:
